@@ -215,6 +215,8 @@ def wrap_at_entry(repo: Repo, rep):
             if fn.endswith("is_dirty_equal"):
                 return env["D"]
             if fn == "isinstance" and len(e.args) == 2 and "unmanaged_types" in norm(e.args[1]):
+                if not any(isinstance(x_, ast.Name) and x_.id == "unmanaged_types" for x_ in ast.walk(e.args[1])):
+                    stale.append(e)
                 return env["I"]
             g = um_mod.funcs.get(fn)
             if g is not None and depth < 3:
@@ -245,6 +247,7 @@ def wrap_at_entry(repo: Repo, rep):
                 return None
         return "fall"
 
+    stale: list = []
     ua = repo.func("_unmanaged.py::update_allowed")
     iu = repo.find_func("_unmanaged.py", "is_unmanaged")
     for fn_, want, what in ((ua, lambda d, i: not (d or i), "update_allowed"), (iu, lambda d, i: (d or i), "is_unmanaged")):
@@ -273,6 +276,15 @@ def wrap_at_entry(repo: Repo, rep):
             )
         else:
             rep.ok("R-WRAP-AT-ENTRY", fn_, fn_.node, f"{what} = {'not ' if what == 'update_allowed' else ''}(dirty-equals or instance of an unmanaged type), on all four combinations")
+    if stale:
+        rep.violation(
+            "R-WRAP-AT-ENTRY",
+            ua,
+            stale[0],
+            f"`{short(stale[0], 60)}` tests against a copy of the registry made at import time, not against the live `unmanaged_types` list: a type registered later with declare_unmanaged() is not recognised - "
+            "its values are not wrapped and a fix rewrites them",
+            construct="registry-copy",
+        )
     um = repo.module("_unmanaged.py")
     lst = [s for s in um.globals_assigned.get("unmanaged_types", []) if isinstance(s, ast.Assign)]
     names = {x.id for s in lst for x in ast.walk(s.value) if isinstance(x, ast.Name)}
